@@ -92,4 +92,14 @@ pub open spec fn build_vftable_ok(reg0: &TypeRegistry, scope: Seq<ItemPath>, stm
         fields_built(reg0, scope, stmts, stmts.len() as int, pending) && (own is Some <==> first_is_vftable(stmts))
         && vftable_of_first_base(reg, p, pending, own, vft, out)
 }
+
+/// the complete statement about the regions of one accepted type: they are `regions_spec` of the declared
+/// fields (C01 offsets, C17 visibility/doc carried to named fields and generated regions private, C20 explicit
+/// and implicit spellings give the same list)
+pub open spec fn build_regions_ok(reg0: &TypeRegistry, scope: Seq<ItemPath>, stmts: Seq<TypeStatement>, target: Option<usize>, reg: &TypeRegistry, p: ItemPath,
+                                  vft: Option<TypeVftable>, out: Seq<Region>, size: usize) -> bool {
+    exists|pending: Seq<(Option<usize>, Region)>, own: Option<Vec<Function>>| #![trigger resolve_regions_spec(reg, p, pending, own, target, vft, out, size)]
+        fields_built(reg0, scope, stmts, stmts.len() as int, pending) && (own is Some <==> first_is_vftable(stmts))
+        && resolve_regions_spec(reg, p, pending, own, target, vft, out, size)
+}
 }
